@@ -1153,12 +1153,18 @@ func findInjectorBuild(info *types.Info, fn *ast.FuncDecl) (*ast.CallExpr, error
 }
 
 func isWireImport(path string) bool {
+	return unvendor(path) == "github.com/google/wire"
+}
+
+// unvendor strips everything up to and including the last "vendor" path
+// element, so that vendored import paths are written in their canonical form.
+func unvendor(path string) string {
 	// TODO(light): This is depending on details of the current loader.
-	const vendorPart = "vendor/"
-	if i := strings.LastIndex(path, vendorPart); i != -1 && (i == 0 || path[i-1] == '/') {
-		path = path[i+len(vendorPart):]
+	const vendorElem = "/vendor/"
+	if i := strings.LastIndex(path, vendorElem); i != -1 {
+		return path[i+len(vendorElem):]
 	}
-	return path == "github.com/google/wire"
+	return strings.TrimPrefix(path, vendorElem[1:])
 }
 
 func isProviderSetType(t types.Type) bool {
